@@ -88,6 +88,87 @@ WHAT = {
               "exactly one of user / group differs from the master's"),
     "C20-2": ("initgroups() moved inside `if gid != os.getgid()`",
               "initgroups=True and a privileged master whose gid already equals the configured group"),
+    # ---- round 2 (sub-agents asked for a change different from the round-1 ones) ----
+    "C01-3": ("parse_chunk_size validates with bytes.isalnum() + int(x, 16) instead of the explicit hex-digit test",
+              "chunk-size spelled with a 0x / 0X prefix ('0x5'), which int(.., 16) accepts"),
+    "C01-4": ("VERSION_RE rewritten as '[0-9]' with a trailing '$' and applied with match() instead of fullmatch()",
+              "request line whose version is followed by a bare LF ('HTTP/1.1\\n'): '$' matches before a final newline"),
+    "C02-3": ("TConn.init only makes the socket blocking the first time (same edit as C13-3)",
+              "gthread keep-alive connection taken back from the poller (non-blocking) whose next request is handled"),
+    "C02-4": ("the reset of headers / response_length on a replacing start_response moves into process_headers and forgets response_length",
+              "application that calls start_response twice (exc_info) where the first call declared a Content-Length and the second does not"),
+    "C03-3": ("Arbiter.signal drops a signal that is already queued",
+              "two TTIN (or TTOU) arriving before the main loop drains the queue: the second is lost"),
+    "C03-4": ("Worker.init_process sets booted = True before the post_worker_init hook runs",
+              "post_worker_init (or anything before run()) failing: the exit is no longer reported as a boot failure (status 3) so the master respawns forever"),
+    "C04-3": ("reload keeps the pidfile object when the new configuration names the same path",
+              "HUP with an unchanged pidfile path followed by TERM: the Pidfile object made by reload() never records its pid (create() returns early on 'already ours'), so the file survives the shutdown"),
+    "C04-4": ("stop() waits min(graceful_timeout, timeout) instead of graceful_timeout",
+              "graceful stop with timeout < graceful_timeout and a worker still finishing a request after `timeout` seconds: SIGKILLed early"),
+    "C05-3": ("async keep-alive loop no longer resets req = None before parsing the next request",
+              "second request on a keep-alive connection that is malformed: the error is handled with the previous request object"),
+    "C05-4": ("write_nonblock tests the truthiness of gettimeout()",
+              "blocking socket (gettimeout() is None): the error page is written without switching the socket to non-blocking"),
+    "C06-3": ("Request.parse drops one leading CRLF from the first read buffer only",
+              "empty line before the request line, with the read boundary inside / after that CRLF: outcome depends on segmentation"),
+    "C06-4": ("parse_chunk_size rejects early when the partial size line contains a non-hex byte",
+              "chunk-size line with BWS / extension ('5 ;ext') arriving split from its CRLF: accepted in one piece, rejected when split"),
+    "C07-3": ("parse_trailers returns the bytes behind the trailer block instead of pushing them back",
+              "chunked request with trailers followed by a pipelined request in the same read"),
+    "C07-4": ("Body.readlines uses bytes.splitlines(True)",
+              "body containing a bare CR: splitlines also splits there"),
+    "C08-3": ("forwarded_allow_ips is tested against the PROXY-protocol client address instead of the TCP peer",
+              "proxy_protocol on, PROXY line naming an address inside forwarded_allow_ips sent through a peer that is not"),
+    "C08-4": ("the '*' test for forwarder_headers reads cfg.forwarder_headers outside the trust gate",
+              "forwarder_headers = '*' and an untrusted peer sending SCRIPT_NAME / PATH_INFO style headers"),
+    "C09-3": ("HEADER_VALUE_RE anchored with ^...$ and applied with match()",
+              "header value or status ending in a single LF: '$' matches before it, the LF reaches the wire"),
+    "C09-4": ("is_hoppish compares the name as given (no lower())",
+              "application sending a hop-by-hop header in other than lower case ('Connection', 'Keep-Alive')"),
+    "C10-3": ("manage_workers marks a surplus worker alive=False and never signals it twice",
+              "surplus worker whose first TERM is lost (still booting, inherited handlers): never signalled again, the old generation survives the reload"),
+    "C10-4": ("Application.load_config calls chdir() only once, after the config file was read",
+              "relative config file path / relative paths in the config file together with --chdir on the command line"),
+    "C11-3": ("WorkerTmp.notify throttled to one utime per second",
+              "heartbeat emitted < 1 s after the previous one is skipped: a request that starts then and is shorter than the timeout gets the worker killed"),
+    "C11-4": ("murder_workers only runs when sleep() timed out",
+              "master woken up at least once a second (signals, chatty children): hung workers are never killed"),
+    "C12-3": ("request-line limit raised to at least 107 bytes on the first request when proxy_protocol is on",
+              "limit_request_line < 107 with proxy_protocol: an over-long request line is accepted"),
+    "C12-4": ("limit_request_fields checked once against the number of lines (continuation lines counted, off by one)",
+              "exactly limit+1 lines with obsolete folding, or limit fields exactly"),
+    "C13-3": ("TConn.init only makes the socket blocking the first time",
+              "keep-alive connection re-dispatched from the poller: handled on a non-blocking socket"),
+    "C13-4": ("keep-alive admission uses > instead of >= max_keepalived",
+              "keep-alive queue exactly at its limit: one more connection is parked than worker_connections allows"),
+    "C14-3": ("Pidfile.rename switches fname before unlink()",
+              "promotion of a re-exec'd master: the .2 pid file is never removed (and a foreign file at the new path is)"),
+    "C14-4": ("Arbiter.setup keeps num_workers across a reload unless the configured value changed",
+              "TTIN/TTOU followed by HUP with an unchanged workers setting"),
+    "C15-3": ("base_environ cached with lru_cache: every request shares one dict",
+              "two requests in one worker: environ keys of the first leak into the second"),
+    "C15-4": ("split_request_uri for //-paths strips the slashes and splits the rest",
+              "target starting with // whose remainder contains ':' or looks like scheme:..."),
+    "C16-3": ("config-file names are no longer filtered by `k not in settings`; unknown ones are caught via AttributeError",
+              "config file defining an upper/mixed-case variable that lower-cases to a setting name (WORKERS = 0)"),
+    "C16-4": ("GUNICORN_CMD_ARGS split with shlex posix=False",
+              "quoted values in GUNICORN_CMD_ARGS: the quotes stay in the value"),
+    "C17-3": ("reload creates the new pid file before unlinking the old one",
+              "HUP with an unchanged pidfile path: create() sees its own pid and keeps the file, then unlink() removes it"),
+    "C17-4": ("Pidfile.create writes through a fixed '<pidfile>.tmp' opened with O_CREAT|O_TRUNC instead of mkstemp",
+              "two masters starting concurrently: one truncates the temp file the other is about to rename"),
+    "C18-3": ("max_requests computed as (max_requests + jitter) or maxsize",
+              "max_requests = 0 (unlimited) with max_requests_jitter > 0: workers restart after `jitter` requests"),
+    "C18-4": ("ThreadWorker.run closes its listeners with sock.close_sockets (which unlinks unix sockets)",
+              "unix-socket listener and a gthread worker recycled by max_requests: the socket path disappears for the whole server"),
+    "C19-3": ("same edit as C05-3 (req not reset in the async keep-alive loop)",
+              "malformed 2nd request on a keep-alive connection: access log entry attributed to the previous request"),
+    "C19-4": ("Response.write counts util.write()'s return value (chunk framing included) instead of the payload length",
+              "chunked response: resp.sent / %B include the chunk-size lines"),
+    "C20-3": ("set_owner_process masks the gid with abs(gid) & 0x7FFFFFFF",
+              "group id >= 2**31 (nogroup = 4294967294 style)"),
+    "C20-4": ("UnixSocket.bind skips chown when the configured ids equal the master's effective ids",
+              "socket directory with setgid bit / different group: the socket keeps the directory's group"),
 }
 
 
